@@ -3,7 +3,7 @@ CONSTANTS
   Mode = "pool"
   Gen = "iter"
   Dev = {}
-  LastBy = "index"
+  LastBy = "identity"
   MaxLines = 2
   MaxDepth = 9
   MaxBlank = 0
